@@ -46,6 +46,13 @@ func (w *vWorld) badCookie(variant, user string, level int) string {
 	case "expired":
 		c.NotBefore, c.IssuedAt, c.Expiration = now-17*3600, now-17*3600, now-3600
 		return w.signOurs(c)
+	case "expired_just":
+		c.NotBefore, c.IssuedAt, c.Expiration = now-16*3600, now-16*3600, now-3
+		return w.signOurs(c)
+	case "notyet_just":
+		c.NotBefore, c.IssuedAt = now+30, now+30
+		c.Expiration = now + 16*3600
+		return w.signOurs(c)
 	case "notyet":
 		c.NotBefore, c.IssuedAt = now+3600, now+3600
 		c.Expiration = now + 17*3600
@@ -88,9 +95,10 @@ func (w *vWorld) badCookie(variant, user string, level int) string {
 
 var vInsideAddr = "10.1.2.3:5555"
 var vOutsideAddr = "192.0.2.10:40000"
+var vOutsideNearAddr = "10.1.200.7:40000" // outside 10.1.0.0/20, inside 10.1.0.0/16
 
 func vNetblocks() []net.IPNet {
-	_, n1, _ := net.ParseCIDR("10.0.0.0/8")
+	_, n1, _ := net.ParseCIDR("10.1.0.0/20") // deliberately not octet aligned
 	_, n2, _ := net.ParseCIDR("127.0.0.0/8")
 	return []net.IPNet{*n1, *n2}
 }
@@ -167,6 +175,8 @@ func (w *vWorld) applyCred(q *vReq, cred map[string]interface{}) {
 		}
 		if strings.Contains(variant, "inside") {
 			q.Remote = vInsideAddr
+		} else if variant == "outside_near" {
+			q.Remote = vOutsideNearAddr
 		} else {
 			q.Remote = vOutsideAddr
 		}
